@@ -281,7 +281,7 @@ Proof.
   exists g. split; [reflexivity|].
   assert (W : WF Z.eqb Z.ltb g).
   { apply (WF_reachable Z.eqb Z.ltb Z.eqb_eq Zasym Ztot (mkspecs false DErr MCreate false true SErr)).
-    apply (new_from_reachable Z.eqb Z.ltb Z.eqb_eq _ _ _ g). exact E. }
+    unfold lv_ex_graph in E. eapply new_from_reachable; [exact Z.eqb_eq | exact E]. }
   split; [exact W|]. split; [exact R|].
   destruct (louvain_communities_of_partitions Z.eqb Z.ltb Z.eqb_eq Zasym Ztot _ _ g _ _ _ _ _ W R) as [Hc Hl].
   split; [exact Hc|]. split; [|exact Hl].
